@@ -158,6 +158,81 @@ pub fn finite_cases() -> Vec<Prog> {
 	]
 }
 
+/// Every struct shape of up to three fields over {same type, another type} x {encoded, skipped}, tuple and
+/// named, deriving `CompactAs`: valid exactly when one field is not skipped (the inner-type conversions of
+/// the generated code type-check for any single field type used here).
+pub fn compact_as_shapes() -> Vec<Prog> {
+	let why = "CompactAs needs a struct with exactly one non-skipped field";
+	let mut out = vec![];
+	for named in [false, true] {
+		for n in 0..=3usize {
+			for code in 0..4usize.pow(n as u32) {
+				let mut fields = vec![];
+				let mut encoded = 0;
+				let mut c = code;
+				for i in 0..n {
+					let (ty, skip) = ([("u32", false), ("u32", true), ("u8", false), ("u8", true)])[c % 4];
+					c /= 4;
+					if !skip {
+						encoded += 1;
+					}
+					let attr = if skip { "#[codec(skip)] " } else { "" };
+					fields.push(if named { format!("{}f{}: {}", attr, i, ty) } else { format!("{}{}", attr, ty) });
+				}
+				let body = if named { format!("pub struct S {{ {} }}", fields.join(", ")) } else { format!("pub struct S({});", fields.join(", ")) };
+				out.push(Prog {
+					name: format!("CompactAs on {} struct [{}]", if named { "named" } else { "tuple" }, fields.join(", ")),
+					src: format!("{}#[derive(Encode, Decode, CompactAs)] {}\n", HEADER, body),
+					expect_accept: encoded == 1,
+					why: why.into(),
+				});
+			}
+		}
+	}
+	out
+}
+
+/// Every pair of field attributes out of {compact, encoded_as, skip} on the first field of a struct with
+/// one, two or three fields (tuple and named) and of an enum variant: a pair of different attributes is a
+/// conflict wherever it stands, a single attribute is valid.
+pub fn attribute_pairs() -> Vec<Prog> {
+	let attrs = [("compact", "#[codec(compact)]"), ("encoded_as", "#[codec(encoded_as = \"<u32 as HasCompact>::Type\")]"), ("skip", "#[codec(skip)]")];
+	let mut out = vec![];
+	for (an, a) in attrs {
+		for (bn, b) in attrs.iter().map(|x| (Some(x.0), x.1)).chain([(None, "")]) {
+			if bn == Some(an) {
+				continue;
+			}
+			let valid = bn.is_none();
+			for extra in 0..=2usize {
+				for pos in 0..=extra {
+					for kind in ["tuple", "named", "variant-tuple", "variant-named"] {
+						let named = kind.ends_with("named");
+						let mut fields = vec![];
+						for i in 0..=extra {
+							let at = if i == pos { format!("{} {} ", a, b) } else { String::new() };
+							fields.push(if named { format!("{}f{}: u32", at, i) } else { format!("{}u32", at) });
+						}
+						let body = match kind {
+							"tuple" => format!("pub struct S({});", fields.join(", ")),
+							"named" => format!("pub struct S {{ {} }}", fields.join(", ")),
+							"variant-tuple" => format!("pub enum E {{ A, B({}) }}", fields.join(", ")),
+							_ => format!("pub enum E {{ A, B {{ {} }} }}", fields.join(", ")),
+						};
+						out.push(Prog {
+							name: format!("{} with {}{} on field {} of {}", kind, an, bn.map(|x| format!("+{}", x)).unwrap_or_default(), pos, extra + 1),
+							src: format!("{}#[derive(Encode, Decode)] {}\n", HEADER, body),
+							expect_accept: valid,
+							why: "mutually exclusive field attributes".into(),
+						});
+					}
+				}
+			}
+		}
+	}
+	out
+}
+
 pub fn corpus(tier: Tier) -> Vec<Prog> {
 	let mut out = vec![];
 	let max = if tier.thorough() { 3 } else { 2 };
@@ -194,6 +269,8 @@ pub fn corpus(tier: Tier) -> Vec<Prog> {
 	out.push(big_enum(400, Some(3)));
 	out.push(big_enum(400, Some(2)));
 	out.extend(finite_cases());
+	out.extend(compact_as_shapes());
+	out.extend(attribute_pairs());
 	out
 }
 
